@@ -27,21 +27,27 @@ type call struct {
 	Op   string // save | load | loadbyaddr
 	Key  string // save: key bytes (as string)
 	Path int    // load: index into the pre-saved paths
+	PW   string // password used by this call ("" = the default password)
 }
 
 type scenario struct {
 	Name    string
 	Pre     int      // keys saved before the threads start
 	Threads [][]call // per thread: calls in program order
+	PrePW   []string // passwords of the pre-saved keys (default: the default password)
 }
 
 var scenarios = []scenario{
-	{"LoadByAddress||Save", 1, [][]call{{{Op: "loadbyaddr"}}, {{Op: "save", Key: "k1"}}}},
-	{"Save||Save", 0, [][]call{{{Op: "save", Key: "k1"}}, {{Op: "save", Key: "k2"}}}},
-	{"Load||Save", 1, [][]call{{{Op: "load", Path: 0}}, {{Op: "save", Key: "k1"}}}},
-	{"LoadByAddress||LoadByAddress||Save", 1, [][]call{{{Op: "loadbyaddr"}}, {{Op: "loadbyaddr"}}, {{Op: "save", Key: "k1"}}}},
-	{"Save;LoadByAddress||Save;LoadByAddress", 0, [][]call{{{Op: "save", Key: "k1"}, {Op: "loadbyaddr"}}, {{Op: "save", Key: "k2"}, {Op: "loadbyaddr"}}}},
-	{"Save||Save||LoadByAddress(empty)", 0, [][]call{{{Op: "save", Key: "k1"}}, {{Op: "save", Key: "k2"}}, {{Op: "loadbyaddr"}}}},
+	{"LoadByAddress||Save", 1, [][]call{{{Op: "loadbyaddr"}}, {{Op: "save", Key: "k1"}}}, nil},
+	{"Save||Save", 0, [][]call{{{Op: "save", Key: "k1"}}, {{Op: "save", Key: "k2"}}}, nil},
+	{"Load||Save", 1, [][]call{{{Op: "load", Path: 0}}, {{Op: "save", Key: "k1"}}}, nil},
+	{"LoadByAddress||LoadByAddress||Save", 1, [][]call{{{Op: "loadbyaddr"}}, {{Op: "loadbyaddr"}}, {{Op: "save", Key: "k1"}}}, nil},
+	{"Save;LoadByAddress||Save;LoadByAddress", 0, [][]call{{{Op: "save", Key: "k1"}, {Op: "loadbyaddr"}}, {{Op: "save", Key: "k2"}, {Op: "loadbyaddr"}}}, nil},
+	{"Save||Save||LoadByAddress(empty)", 0, [][]call{{{Op: "save", Key: "k1"}}, {{Op: "save", Key: "k2"}}, {{Op: "loadbyaddr"}}}, nil},
+	// one address saved twice under different passwords; a reader that presents the OLD password (the newest file does not open
+	// with it) runs next to a writer: whatever the store does on the failure path, it must not block the writer for ever
+	{"LoadByAddress(old password)||Save||LoadByAddress", 2, [][]call{{{Op: "loadbyaddr", PW: "old"}}, {{Op: "save", Key: "k1"}}, {{Op: "loadbyaddr"}}}, []string{"old", passwd}},
+	{"Load(wrong password)||Save||LoadByAddress", 1, [][]call{{{Op: "load", Path: 0, PW: "bad"}}, {{Op: "save", Key: "k1"}}, {{Op: "loadbyaddr"}}}, nil},
 }
 
 type event struct {
@@ -62,6 +68,7 @@ type ksInput struct {
 	Key  string
 	Path string
 	TS   string
+	PW   string
 }
 type ksOutput struct {
 	OK      bool
@@ -130,7 +137,7 @@ func ksModel(init string, pathFor func(ts string) string) porcupine.Model {
 				if !out.OK || out.Path != p {
 					return false, state
 				}
-				st[p] = in.Key
+				st[p] = in.Key + "\x00" + in.PW
 				return true, stateStr(st)
 			case "loadbyaddr":
 				if len(st) == 0 {
@@ -142,13 +149,21 @@ func ksModel(init string, pathFor func(ts string) string) porcupine.Model {
 						max = p
 					}
 				}
-				return out.OK && out.Key == st[max], state
+				key, pw, _ := strings.Cut(st[max], "\x00")
+				if pw != in.PW { // the newest file does not open with this password
+					return !out.OK && out.ErrKind == "mac", state
+				}
+				return out.OK && out.Key == key, state
 			case "load":
 				k, ok := st[in.Path]
 				if !ok {
 					return !out.OK && out.ErrKind == "notfound", state
 				}
-				return out.OK && out.Key == k, state
+				key, pw, _ := strings.Cut(k, "\x00")
+				if pw != in.PW {
+					return !out.OK && out.ErrKind == "mac", state
+				}
+				return out.OK && out.Key == key, state
 			}
 			return false, state
 		},
@@ -180,11 +195,15 @@ func runOnce(sc scenario, prefix []int) *runResult {
 	res := &runResult{pre: map[string]string{}, dir: dir}
 	var prePaths []string
 	for i := 0; i < sc.Pre; i++ { // outside the scheduler: the shims fall through to the real primitives
-		p, err := ks.Save(address, []byte(fmt.Sprintf("pre%d", i)), passwd)
+		pw := passwd
+		if i < len(sc.PrePW) {
+			pw = sc.PrePW[i]
+		}
+		p, err := ks.Save(address, []byte(fmt.Sprintf("pre%d", i)), pw)
 		if err != nil {
 			panic(err)
 		}
-		res.pre[p] = fmt.Sprintf("pre%d", i)
+		res.pre[p] = fmt.Sprintf("pre%d", i) + "\x00" + pw
 		prePaths = append(prePaths, p)
 	}
 	vtime.Reset()
@@ -194,19 +213,22 @@ func runOnce(sc scenario, prefix []int) *runResult {
 		bodies = append(bodies, func() {
 			x := sched.Current()
 			for _, c := range calls {
-				ev := &event{Thread: ti, Call: c, CallT: x.Now()}
+				if c.PW == "" {
+					c.PW = passwd
+				}
+				ev := &event{Thread: ti, Call: c, CallT: x.Now()} // c carries its effective password
 				res.events = append(res.events, ev)
 				switch c.Op {
 				case "save":
-					p, err := ks.Save(address, []byte(c.Key), passwd)
+					p, err := ks.Save(address, []byte(c.Key), c.PW)
 					ev.OK, ev.Path, ev.ErrKind = err == nil, p, errKind(err)
 					ev.TS = vtime.LastNow[ti]
 				case "loadbyaddr":
-					k, err := ks.LoadByAddress(address, passwd)
+					k, err := ks.LoadByAddress(address, c.PW)
 					ev.OK, ev.Key, ev.ErrKind = err == nil, string(k), errKind(err)
 				case "load":
 					ev.Path = prePaths[c.Path]
-					k, err := ks.Load(prePaths[c.Path], passwd)
+					k, err := ks.Load(prePaths[c.Path], c.PW)
 					ev.OK, ev.Key, ev.ErrKind = err == nil, string(k), errKind(err)
 				}
 				ev.RetT = x.Now()
@@ -244,7 +266,10 @@ func judge(sc scenario, r *runResult) (string, string) {
 		if !ev.Completed {
 			return "incomplete", "a call did not complete although the execution ended"
 		}
-		in := ksInput{Op: ev.Call.Op, Key: ev.Call.Key, Path: ev.Path}
+		in := ksInput{Op: ev.Call.Op, Key: ev.Call.Key, Path: ev.Path, PW: ev.Call.PW}
+		if in.PW == "" {
+			in.PW = passwd
+		}
 		if ev.Call.Op == "save" {
 			in.TS = ev.TS.UTC().Format("2006-01-02T15-04-05.000000000Z")
 			in.Path = ""
